@@ -167,7 +167,7 @@ class World:
         return cls._instance
 
     def __init__(self, streams=('bbb', 'tears', 'synirr', 'synoff', 'synnot', 'synenc', 'synwild'), users=True, writable_blobs=False, with_subs=True,
-                 propagate=False, mps=True):
+                 propagate=False, mps=True, extras=False):
         import logging
         logging.disable(logging.CRITICAL)
         from dashlive.server.app import create_app
@@ -237,6 +237,8 @@ class World:
                 self.add_synth_stream(s)
             else:
                 self.add_fixture_stream(s, with_subs=with_subs, copy=writable_blobs)
+        if extras:
+            self.add_extras()
         if users:
             # a second, explicit (not computed) key so that key-set alphabets have two known ids
             if models.Key.get(hkid='00112233445566778899aabbccddeeff') is None:
@@ -336,6 +338,49 @@ class World:
         self._add_keys()
         self.stream_names.append(name)
         return stream
+
+    def add_extras(self):
+        """Streams with missing pieces (C16): video only, no timing reference, an un-indexed file, no media."""
+        from . import synth
+        models = self.models
+        from dashlive.mpeg import mp4
+        from dashlive.mpeg.dash.representation import Representation
+        specs = {
+            'synvid': {'synvid_v1': dict(kind='video', timescale=1000, durations=(2000, 2000, 2000), file_id=21)},
+            'synnoref': {'synnoref_v1': dict(kind='video', timescale=1000, durations=(2000, 2000, 2000), file_id=22),
+                         'synnoref_a1': dict(kind='audio', timescale=48000, track_id=2, durations=(96000, 96000, 96000), file_id=23)},
+            'synunidx': {'synunidx_v1': dict(kind='video', timescale=1000, durations=(2000, 2000, 2000), file_id=24),
+                         'synunidx_v2': dict(kind='video', timescale=1000, durations=(2000, 2000, 2000), file_id=25)},
+            'synempty': {},
+        }
+        for name, files in specs.items():
+            d = self.blob_folder / name
+            d.mkdir(exist_ok=True)
+            stream = models.Stream(title=f'extra {name}', directory=name, marlin_la_url=None, playready_la_url=None)
+            models.db.session.add(stream)
+            for stem, recipe in sorted(files.items()):
+                data = synth.make_file(**recipe)
+                p = d / f'{stem}.mp4'
+                p.write_bytes(data)
+                ctype = 'video' if '_v' in stem else 'audio'
+                blob = models.Blob(filename=p.name, created=_real_datetime(2022, 9, 1, 12, 23, 0), size=len(data),
+                                   sha1_hash=hashlib.sha1(data).hexdigest(), content_type=ctype, auto_delete=False)
+                mf = models.MediaFile(name=stem, stream=stream, content_type=ctype, blob=blob)
+                models.db.session.add(blob)
+                models.db.session.add(mf)
+                if not (name == 'synunidx' and stem.endswith('v2')):
+                    with p.open('rb', buffering=16384) as src:
+                        atoms = mp4.Mp4Atom.load(src)
+                    rep = Representation.load(p.name, atoms)
+                    mf.bitrate = rep.bitrate
+                    mf.codec_fourcc = rep.codecs.split('.')[0]
+                    mf.track_id = rep.track_id
+                    mf.encrypted = rep.encrypted
+                    mf.set_representation(rep)
+                    if name != 'synnoref' and stream.timing_reference is None and ctype == 'video':
+                        stream.timing_reference = mf.as_stream_timing_reference()
+            self.stream_names.append(name)
+        models.db.session.commit()
 
     def add_mps(self, name, periods, title=None):
         """periods: list of dict(pid, stream, start (s), duration (s), tracks=[(content_type, track_id)])"""
